@@ -44,6 +44,11 @@ CHECKS = {
    text="Handshake: Dolev-Yao adversary against 2-3 honest sessions (Authenticated, NoImpersonation, Mutual, EstablishedSound incl. the transport's reject-self), each model session executed as a real MakeSecretConnection against the driver's own adversary implementation. Frame stream: all write/read chunkings over {0,1,1023,1024,1025,2049}, Flip and Cut at every byte offset, Drop/Dup/Swap/Replay/Inject up to three manipulations (DeliveredIsPrefixOfSent, TamperDetected) replayed on real connection pairs with the wire owned by the driver. MConnection: all packet interleavings and fragmentations, lengths 0..capacity+1 (PerChannelFIFOExactlyOnce, NoCrossChannelMixing, OversizeRefused, AllDelivered) replayed on a real receiver and stepped sender; traces of real concurrent MConnection-over-SecretConnection pairs and concurrent writers are explained by the specification (TLC).",
    note="Trusted: perfect X25519/HKDF/merlin/ChaCha20-Poly1305/ECDSA, TLC, the in-memory wire and the driver's independent adversary, a finite adversary closure. Ping/pong, flow-rate throttling and real TCP are not covered. Named deviation: the role-less challenge allows self-reflection, closed by transport.upgrade (composed invariant EstablishedSound).",
    ref="§4-C20"),
+ "C16": dict(
+   engine="rlp", category="model_checking", technique="TLA+ specs (RLP.tla Yellow-Paper Enc / canonical Dec, RLPStream, RLPTyped) model-checked by TLC; every generated string/tree/mutation/call history replayed into the real encoder and every decoder entry point; TLC trace validation of random inputs",
+   text="RLP.tla defines Enc and the canonical decoder Dec; RLPStream.tla and RLPTyped.tla transcribe the lib/rlp Stream and the reflective decoders. TLC checks that Dec accepts exactly encodings and that the streaming/typed decoders accept exactly canonical encodings of the right shape and never request a buffer beyond the input limit, over: all strings of length <= 3/4 over an 18-byte boundary alphabet, trees with lengths 0..256 under every mutation class at every position (also stacked), headers claiming up to 2^64-1 bytes, boundary values of 31 Go schemas incl. the chain wire structs, all Stream call sequences of <= 6/10 calls. Every transition is executed on the real encoder, DecodeBytes/Decode/Stream/Split*/CountValues/iterator and the real Transaction/Receipt/BlockInfo/Log/StateAccount/Header (acceptance, value, canonical re-encode, hash, size, measured allocation, no panic); 2 000/20 000 random or damaged strings go through the real decoders and TLC must explain every outcome.",
+   note="Partial: payloads above ~1 KB, Go types outside the 31 schemas and streams without an input limit are not covered; 'reference implementation' is read as RLP.tla's Enc (go-ethereum v1.9.15 only as a counted cross-check). Trusted: TLC, the driver's reflection mapping, keccak256.",
+   ref="§4-C16"),
 }
 
 NOT_YET = {
